@@ -1,4 +1,4 @@
 SPECIFICATION Spec
 ACTION_CONSTRAINT EmitEdge
-INVARIANT Inv Monotone SignalsAgree StructInv CrossInv
+INVARIANT Inv Monotone SignalsAgree StructInv CrossInv EmptyIsUnset
 CHECK_DEADLOCK FALSE
